@@ -23,17 +23,27 @@ Section AnyNum.
   Lemma set_normal_no_panic (L : Loop K) : forall s, loop_set_normal L <> Panic s.
   Proof. intros s. unfold loop_set_normal. destruct (verts L) as [|a [|b [|c l]]]; discriminate. Qed.
 
+  Lemma push_keep_no_panic (vs : list V) (p : V) (fuel keep : nat) : forall s, push_keep vs p keep fuel <> Panic s.
+  Proof.
+    revert keep. induction fuel as [|f IH]; intros keep s; cbn [push_keep]; [discriminate|].
+    destruct (Nat.leb 2 keep); [|discriminate].
+    pose proof (is_collinear_no_panic (vnth vs (keep - 2)) (vnth vs (keep - 1)) p) as Hc.
+    destruct (is_collinear _ _ p) as [c| |s']; cbn [rbind]; try discriminate; [|intros _; exact (Hc s' eq_refl)].
+    destruct c; [apply IH | discriminate].
+  Qed.
+  Lemma push_tail_no_panic (L : Loop K) (vs : list V) : forall s,
+    (if Nat.eqb (length vs) 3 then loop_set_normal (set_verts L vs)
+     else if Nat.ltb (length vs) 3 then Ok (set_normal_field (set_verts L vs) vzero) else Ok (set_verts L vs)) <> Panic s.
+  Proof. intros s. destruct (Nat.eqb _ 3); [apply set_normal_no_panic|]. destruct (Nat.ltb _ 3); discriminate. Qed.
   Lemma push_no_panic (L : Loop K) (p : V) : forall s, loop_push L p <> Panic s.
   Proof.
-    intros s. unfold loop_push, loop_push_gen, loop_push_gen2. cbn [negb andb].
+    intros s. unfold loop_push.
     pose proof (valid_to_add_no_panic L p) as Hv. destruct (valid_to_add L p) as [u| |s']; cbn [rbind]; try discriminate; [|intros _; exact (Hv s' eq_refl)].
     destruct (Nat.leb 2 (llen L)).
-    - destruct (vcompare _ p).
-      { cbn [rbind]. match goal with |- context [if ?b then loop_set_normal ?x else _] => destruct b; [apply set_normal_no_panic | discriminate] end. }
-      pose proof (is_collinear_no_panic (vnth (verts L) (llen L - 2)) (vnth (verts L) (llen L - 1)) p) as Hc.
-      destruct (is_collinear _ _ p) as [c| |s']; cbn [rbind]; try discriminate; [|intros _; exact (Hc s' eq_refl)].
-      match goal with |- context [if ?b then loop_set_normal ?x else _] => destruct b; [apply set_normal_no_panic | discriminate] end.
-    - cbn [rbind]. match goal with |- context [if ?b then loop_set_normal ?x else _] => destruct b; [apply set_normal_no_panic | discriminate] end.
+    - destruct (vcompare _ p); cbn [rbind]; [apply push_tail_no_panic|].
+      pose proof (push_keep_no_panic (verts L) p (llen L) (llen L)) as Hk.
+      destruct (push_keep _ p _ _) as [k| |s']; cbn [rbind]; try discriminate; [apply push_tail_no_panic | intros _; exact (Hk s' eq_refl)].
+    - cbn [rbind]. apply push_tail_no_panic.
   Qed.
 
   Lemma set_area_no_panic (L : Loop K) : forall s, loop_set_area L <> Panic s.
@@ -41,15 +51,34 @@ Section AnyNum.
   Lemma set_perimeter_no_panic (L : Loop K) : forall s, loop_set_perimeter L <> Panic s.
   Proof. intros s. unfold loop_set_perimeter. destruct (negb _); [discriminate|]. destruct (vis_zero _); [discriminate|]. destruct (Nat.ltb _ _); discriminate. Qed.
 
+  Lemma last_is_redundant_no_panic (vs : list V) : forall s, last_is_redundant vs <> Panic s.
+  Proof. intros s. unfold last_is_redundant. destruct (Nat.ltb _ 3); [discriminate | apply is_collinear_no_panic]. Qed.
+  Lemma pop_redundant_no_panic (fuel : nat) : forall (vs : list V) s, snd (pop_redundant vs fuel) <> Panic s.
+  Proof.
+    induction fuel as [|f IH]; intros vs s; cbn [pop_redundant]; [discriminate|].
+    pose proof (last_is_redundant_no_panic vs) as H. destruct (last_is_redundant vs) as [[|]| |s']; cbn [snd]; try discriminate; [apply IH|].
+    intros _. exact (H s' eq_refl).
+  Qed.
+  Lemma drop_first_redundant_no_panic (fuel : nat) : forall (vs : list V) s, snd (drop_first_redundant vs fuel) <> Panic s.
+  Proof.
+    induction fuel as [|f IH]; intros vs s; cbn [drop_first_redundant]; [discriminate|].
+    destruct (Nat.ltb (length vs) 3); [discriminate|].
+    match goal with |- context [match is_collinear ?a ?b ?c with _ => _ end] => pose proof (is_collinear_no_panic a b c) as H; destruct (is_collinear a b c) as [[|]| |s'] end;
+      cbn [snd]; try discriminate; [|intros _; exact (H s' eq_refl)].
+    pose proof (pop_redundant_no_panic (length vs) (tl vs)) as Hp. destruct (pop_redundant (tl vs) (length vs)) as [vs1 r]. cbn [snd] in Hp.
+    destruct r as [u| |s']; cbn [snd]; try discriminate; [apply IH|]. intros _. exact (Hp s' eq_refl).
+  Qed.
   Lemma close_no_panic (L : Loop K) : forall s, snd (loop_close L) <> Panic s.
   Proof.
-    intros s. unfold loop_close. destruct (Nat.ltb (llen L) 3); [discriminate|].
-    match goal with |- context [match is_collinear ?a ?b ?c with _ => _ end] => pose proof (is_collinear_no_panic a b c) as H1; destruct (is_collinear a b c) as [c1| |s1] end;
-      cbn [snd]; try discriminate; [|intros _; exact (H1 s1 eq_refl)].
+    intros s. unfold loop_close. destruct (lclosed L); [discriminate|]. destruct (Nat.ltb (llen L) 3); [discriminate|].
+    pose proof (pop_redundant_no_panic (llen L) (verts L)) as H1. destruct (pop_redundant (verts L) (llen L)) as [vs1 r1]. cbn [snd] in H1.
+    destruct r1 as [u1| |s1]; cbn [snd]; try discriminate; [|intros _; exact (H1 s1 eq_refl)].
+    destruct (Nat.ltb (length vs1) 3); [discriminate|].
     match goal with |- context [match valid_to_add ?l ?p with _ => _ end] => pose proof (valid_to_add_no_panic l p) as H2; destruct (valid_to_add l p) as [u| |s2] end;
       cbn [snd]; try discriminate; [|intros _; exact (H2 s2 eq_refl)].
-    match goal with |- context [match is_collinear ?a ?b ?c with _ => _ end] => pose proof (is_collinear_no_panic a b c) as H3; destruct (is_collinear a b c) as [c3| |s3] end;
-      cbn [snd]; try discriminate; [|intros _; exact (H3 s3 eq_refl)].
+    pose proof (drop_first_redundant_no_panic (length vs1) vs1) as H3. destruct (drop_first_redundant vs1 (length vs1)) as [vs2 r2]. cbn [snd] in H3.
+    destruct r2 as [u2| |s3]; cbn [snd]; try discriminate; [|intros _; exact (H3 s3 eq_refl)].
+    destruct (Nat.ltb (length vs2) 3); [discriminate|].
     match goal with |- context [match loop_set_area ?l with _ => _ end] => pose proof (set_area_no_panic l) as H4; destruct (loop_set_area l) as [l4| |s4] end;
       cbn [snd]; try discriminate; [|intros _; exact (H4 s4 eq_refl)].
     match goal with |- context [match loop_set_perimeter ?l with _ => _ end] => pose proof (set_perimeter_no_panic l) as H5; destruct (loop_set_perimeter l) as [l5| |s5] end;
@@ -74,42 +103,42 @@ Section AnyNum.
 
   (** push on a closed loop is refused *)
   Theorem push_on_closed_refused (L : Loop K) (p : V) : lclosed L = true -> loop_push L p = Err 30%N.
-  Proof. intros H. unfold loop_push, loop_push_gen, loop_push_gen2, valid_to_add. rewrite H. reflexivity. Qed.
+  Proof. intros H. unfold loop_push, valid_to_add. rewrite H. reflexivity. Qed.
 
   (** acceptance is exactly: open, coplanar (when the plane is known), no proper crossing with an
       earlier non-adjacent edge, and -- unless the point goes straight back to the last-but-one vertex
-      (the spike is then popped, fix df28df6) -- the last two vertices and the new point not all coincident *)
+      (the spike is then popped, fix df28df6) -- none of the collinearity tests made while counting the trailing
+      vertices that the point makes redundant fails (three coincident points; in a reachable state only the
+      first of these tests can fail: consecutive stored vertices are distinct) *)
   Definition accepts (L : Loop K) (p : V) : bool :=
     negb (lclosed L) &&
     (if negb (vis_zero (lnormal L)) then match loop_is_coplanar L p with Ok b => b | _ => false end else true) &&
     (if Nat.leb 3 (llen L) then negb (crosses_any (seg_new (vnth (verts L) (llen L - 1)) p) (verts L) (llen L - 2)) else true) &&
     (if Nat.leb 2 (llen L) then vcompare (vnth (verts L) (llen L - 2)) p ||
-                                is_ok (is_collinear (vnth (verts L) (llen L - 2)) (vnth (verts L) (llen L - 1)) p) else true).
+                                is_ok (push_keep (verts L) p (llen L) (llen L)) else true).
   Lemma set_normal_tail_ok (L : Loop K) (vs : list V) :
-    is_ok (if Nat.eqb (length vs) 3 then loop_set_normal (set_verts L vs) else Ok (set_verts L vs)) = true.
+    is_ok (if Nat.eqb (length vs) 3 then loop_set_normal (set_verts L vs)
+           else if Nat.ltb (length vs) 3 then Ok (set_normal_field (set_verts L vs) vzero) else Ok (set_verts L vs)) = true.
   Proof.
-    destruct (Nat.eqb (length vs) 3) eqn:El; [|reflexivity]. apply Nat.eqb_eq in El.
+    destruct (Nat.eqb (length vs) 3) eqn:El; [|destruct (Nat.ltb _ 3); reflexivity]. apply Nat.eqb_eq in El.
     unfold loop_set_normal. cbn [verts set_verts]. destruct vs as [|x [|y [|z w]]]; cbn [length] in El; try discriminate; reflexivity.
-  Qed.
-  Lemma push_tail_accepts (L : Loop K) (p : V) :
-    is_ok (do vs <- (if Nat.leb 2 (llen L) then
-                if vcompare (vnth (verts L) (llen L - 2)) p then Ok (removelast (verts L)) else
-                do col <- is_collinear (vnth (verts L) (llen L - 2)) (vnth (verts L) (llen L - 1)) p;
-                Ok (if col then replace_last (verts L) p else verts L ++ [p])
-              else Ok (verts L ++ [p]));
-           if Nat.eqb (length vs) 3 then loop_set_normal (set_verts L vs) else Ok (set_verts L vs)) =
-    (if Nat.leb 2 (llen L) then vcompare (vnth (verts L) (llen L - 2)) p ||
-                                is_ok (is_collinear (vnth (verts L) (llen L - 2)) (vnth (verts L) (llen L - 1)) p) else true).
-  Proof.
-    destruct (Nat.leb 2 (llen L)).
-    - destruct (vcompare _ p); cbn [orb rbind]; [apply set_normal_tail_ok|].
-      destruct (is_collinear _ _ p) as [c| |]; cbn [rbind is_ok]; try reflexivity. apply set_normal_tail_ok.
-    - cbn [rbind]. apply set_normal_tail_ok.
   Qed.
   Theorem push_accepts (L : Loop K) (p : V) : is_ok (loop_push L p) = accepts L p.
   Proof.
-    unfold loop_push, loop_push_gen, loop_push_gen2, accepts. cbn [negb andb]. rewrite <- push_tail_accepts.
+    unfold loop_push, accepts. cbn [negb andb].
     unfold valid_to_add. destruct (lclosed L); [reflexivity|]. cbn [negb andb].
+    assert (Htail : is_ok (do vs <- (if Nat.leb 2 (llen L) then
+                if vcompare (vnth (verts L) (llen L - 2)) p then Ok (removelast (verts L)) else
+                do keep <- push_keep (verts L) p (llen L) (llen L); Ok (firstn keep (verts L) ++ [p])
+              else Ok (verts L ++ [p]));
+           if Nat.eqb (length vs) 3 then loop_set_normal (set_verts L vs)
+           else if Nat.ltb (length vs) 3 then Ok (set_normal_field (set_verts L vs) vzero) else Ok (set_verts L vs)) =
+       (if Nat.leb 2 (llen L) then vcompare (vnth (verts L) (llen L - 2)) p || is_ok (push_keep (verts L) p (llen L) (llen L)) else true)).
+    { destruct (Nat.leb 2 (llen L)).
+      - destruct (vcompare _ p); cbn [orb rbind]; [apply set_normal_tail_ok|].
+        destruct (push_keep _ p _ _) as [k| |]; cbn [rbind is_ok]; try reflexivity. apply set_normal_tail_ok.
+      - cbn [rbind]. apply set_normal_tail_ok. }
+    rewrite <- Htail.
     destruct (negb (vis_zero (lnormal L))).
     - destruct (loop_is_coplanar L p) as [c| |]; cbn [rbind]; try reflexivity. destruct c; cbn [negb andb]; [|reflexivity].
       destruct (Nat.leb 3 (llen L)); cbn [rbind]; [|reflexivity].
@@ -123,10 +152,12 @@ Section AnyNum.
   Theorem close_ok_invariants (L : Loop K) : snd (loop_close L) = Ok tt ->
     let L' := fst (loop_close L) in lclosed L' = true /\ 3 <= llen L'.
   Proof.
-    unfold loop_close. destruct (Nat.ltb (llen L) 3); [discriminate|].
-    destruct (is_collinear _ _ _) as [c1| |]; cbn [snd]; try discriminate.
+    unfold loop_close. destruct (lclosed L); [discriminate|]. destruct (Nat.ltb (llen L) 3); [discriminate|].
+    destruct (pop_redundant (verts L) (llen L)) as [vs1 r1]. destruct r1 as [u1| |]; cbn [snd]; try discriminate.
+    destruct (Nat.ltb (length vs1) 3); [discriminate|].
     destruct (valid_to_add _ _) as [u| |]; cbn [snd]; try discriminate.
-    destruct (is_collinear _ _ _) as [c2| |]; cbn [snd]; try discriminate.
+    destruct (drop_first_redundant vs1 (length vs1)) as [vs2 r2]. destruct r2 as [u2| |]; cbn [snd]; try discriminate.
+    destruct (Nat.ltb (length vs2) 3); [discriminate|].
     match goal with |- context [match loop_set_area ?l with _ => _ end] => destruct (loop_set_area l) as [l4| |] eqn:E4 end; cbn [snd]; try discriminate.
     destruct (loop_set_perimeter l4) as [l5| |] eqn:E5; cbn [snd fst]; try discriminate. intros _.
     unfold loop_set_perimeter in E5. destruct (negb (lclosed l4)) eqn:Ec; [discriminate|]. destruct (vis_zero _); [discriminate|].
